@@ -22,6 +22,8 @@ LEVEL_NOTE = ('Trusted: front-end, interpreter, the assignment of physical dimen
 EXPLANATION = 'R03.1 non-dim o re-dim == identity and conversion factors carry the right dimension; R03.2 scaling covariance of all kernels; R03.3 solution layout agreement (writer collapse for every layer kind, readers by interpretation); R03.4 sibling unit system; R03.6 every requested type gets the Love numbers of its own assembled solution; R03.7 dimensional homogeneity of the arithmetic of the driver itself (unit inference); R03.8 the conversion helpers return the same values whichever planet was converted before (no stale module-level cache); R03.9 a type requested alone returns what it returns together with the others (5 whole-driver runs per structure); R03.10 y3 of dynamic liquid layers in the returned solution obeys the elimination formula with the dimensional frequency, non-dimensionalised or not; R03.11 no loop index narrower than its bound (finer grids); R03.12 the surface condition is built with the gravity and G of the unit system of the solve; R03.5 reciprocity: W(tidal, loading) conserved in every layer kind, continuous across interfaces, and equal to (2l+1)R/(4 pi G) [k_t - h_t - k_load] at the surface.'
 
 
+EXPLANATION += ' R03.13 the boundary table (default request and explicit requests) holds the surface values of the unit system of the solve, dimensional and non-dimensionalised.'
+
 def run(chk):
     repo = Repo(chk.repo)
     d = X.Decider(seed=chk.seed, k=2 if chk.tier == 'quick' else 6)
@@ -48,6 +50,14 @@ def run(chk):
     SW.guarded(chk, 'C03', lambda: SW.alone_vs_together(chk, repo, 'R03.9'))
     SW.guarded(chk, 'C03', lambda: SW.liquid_y3(chk, repo, 'R03.10'))
     SW.guarded(chk, 'C03', lambda: SW.surface_arguments(chk, repo, 'R03.12'))
+    # R03.13: the surface values the driver imposes -- for the default request (solve_for=None) and for every explicit one -- are those of the unit system of the solve,
+    #         dimensional and non-dimensionalised (C02's boundary-table rule taken under C03: a table that is right only for R = 1 breaks the invariance under internal
+    #         non-dimensionalisation, not the non-dimensionalised solve)
+    from . import c02
+    from .common import RuleAlias
+    al13 = RuleAlias(chk, 'R03.13', lambda rule, inst: rule == 'R02.2' and ('default' in inst or 'condition of type i' in inst))
+    c02.bc_table(al13, repo, d, make_eq(al13, d))
+    chk.floor('R03.13', 10)
     chk.floor('R03.12', 6)
     chk.floor('R03.9', 6); chk.floor('R03.10', 6)
     # ---- R03.11 "a finer radial grid": no loop index of the solve is narrower than the bound it runs to (a counter that wraps at 256 slices changes the answer on fine grids only)
